@@ -30,7 +30,7 @@ CLAIMS = {
  'C10': ('bbmc', 'All schedules within the bounds of retire() callers, the reclaim thread, readers and stop()/destructor of the real GarbageCollector with queue capacities 1-2; per reclaimer: run exactly once, never while a region open at retirement is still open, all run when stop() returned.', 'section 5 (C10)'),
  'C11': ('seqx', 'Exhaustive enumeration, not sampling: every value of the type alphabets is serialised and parsed back through ten stream presentations; every byte string up to the stated lengths (all 256 values up to length 2, a 16-byte schema alphabet beyond) is fed to 15 deserialisers under ASan+UBSan; protobuf compatibility is checked against protoc-generated code for all field orders and unknown-field placements.', 'section 5 (C11)'),
  'C12': ('seqx', 'Breadth-first enumeration of every sequence of container operations (positions begin/middle/end, counts 0-2, three element types, manager clear cycles) on ReusableVector/SwissString/ReusableManager against std::vector/std::string, compared element-wise after every step; capacity retention and allocation convergence are checked through the memory resource accounting.', 'section 5 (C12), section 3'),
- 'C13': ('bbmc', 'All schedules within the bounds of coroutine Futex wait/wake_one/wake_all/cancel, cancellable future awaits and tasks awaiting tasks across executors on the real code; a resume counter per suspension must be exactly one, on the right executor, with the right result.', 'section 5 (C13)'),
+ 'C13': ('bbmc', 'Sequential half (seqx): all operation sequences on one coroutine futex against a reference model. Concurrent half: all schedules within the bounds of coroutine Futex wait/wake_one/wake_all/cancel, cancellable future awaits and tasks awaiting tasks across executors on the real code; a resume counter per suspension must be exactly one, on the right executor, with the right result.', 'section 5 (C13)'),
  'C14': ('bbmc', 'All schedules within the bounds of allocate/deallocate/for_each on IdAllocator, thread births and deaths on ThreadId, and emplace/take/non-matching take on DepositBox (ABA shapes included); a harness ownership map flags any value held twice, and stale versioned ids must never match.', 'section 5 (C14)'),
  'C15': ('bbmc', 'All schedules and TSO store delays within the bounds of publishers, consumers (single and batch, const and non-const ranges), close() and clear() on the real ConcurrentTransientTopic; every consumer must see exactly the published sequence and then the end.', 'section 5 (C15)'),
  'C16': ('bbmc', 'All schedules within the bounds of concurrent execute() callers, the consumer launched through an executor that may refuse (enumerated faults) and join() on the real ConcurrentExecutionQueue; items consumed exactly once in per-producer order by one consumer at a time, none stranded.', 'section 5 (C16)'),
